@@ -21,6 +21,12 @@ pub fn to_listing(
                 None,
             );
 
+            // (a statement that spans several lines is listed on its first line only)
+            let offsets = offsets
+                .into_iter()
+                .filter(|o| ctx.tree().code_map.look_up_span(o.span).begin.line == line_idx)
+                .collect_vec();
+
             let mut data = vec![];
             for offset in &offsets {
                 for (segment_name, segment) in ctx.segments() {
